@@ -116,3 +116,13 @@ package frame
 //@   prop C15
 //@   nilable compressor
 //@   ensures nonnil: result != nil
+
+//@ iface RawCodec.DecodeHeader
+//@   prop C15
+//@   assigns rstream(source)
+//@   assumes nonnil: result1 == nil ==> result0 != nil
+
+//@ iface Codec.DecodeFrame
+//@   prop C15
+//@   assigns rstream(source)
+//@   assumes nonnil: result1 == nil ==> result0 != nil && result0.Header != nil && result0.Body != nil && result0.Body.Message != nil
